@@ -350,6 +350,47 @@ NIViolations(S, c) ==
             /\ (Has(c, "otp") => ClientView(S, c, otpl(b, u)) = ClientView(S, c, otpl(b, g))))
 
 -----------------------------------------------------------------------------
+(* C20 (cross-talk clause) at the design level: requests of clients working on   *)
+(* disjoint accounts and browsers are independent - whatever one client does in  *)
+(* between, the other client's next request has the same response and leaves the *)
+(* same client-visible state (identifiers of freshly issued secrets are drawn    *)
+(* from shared counters, so they are compared by presence).  Any interleaving of *)
+(* request-atomic steps is therefore equivalent, for each client, to running     *)
+(* alone.  (The code-level half is `abdrive conc` under the race detector.)      *)
+
+SessProj(s) == [uid |-> s.uid, half |-> s.half, twofa |-> s.twofa, totpPend |-> s.totpPend, smsPend |-> s.smsPend,
+                smsCode |-> s.smsCode # 0, smsLast |-> s.smsLast, totpSetup |-> s.totpSetup # 0, smsNum |-> s.smsNum,
+                oState |-> s.oState # 0, oHas |-> s.oHas, tfaTok |-> s.tfaTok # 0, tfaAuthed |-> s.tfaAuthed,
+                lastAct |-> s.lastAct, app1 |-> s.app1, app2 |-> s.app2]
+UserProj(u) == [ex |-> u.ex, pw |-> u.pw, conf |-> u.conf, cTok |-> u.cTok # 0, rTok |-> u.rTok # 0, rExp |-> u.rExp,
+                att |-> u.att, last |-> u.last, lockedUntil |-> u.lockedUntil, otps |-> Cardinality(u.otps),
+                rc |-> Cardinality(u.rcLeft), totp |-> u.totp # 0, sms |-> u.sms]
+ClientProj(S, b, u) == [sess |-> SessProj(S.sess[b]), cookie |-> S.cookie[b] # 0, user |-> UserProj(S.db[u]),
+                        rm |-> Cardinality({t \in S.rm : t.o = u})]
+RespProj(r) == [class |-> r.class, loc |-> r.loc, ran |-> r.ran, seenUser |-> r.seenUser,
+                mails |-> {<<m.to, m.kind>> : m \in r.mails}, sms |-> {s.phone : s \in r.sms}]
+
+ClientEvents(S, c, b, u) ==
+  { [E0 EXCEPT !.act = "LoginPost", !.b = b, !.pid = u, !.pw = w, !.rm = r] : w \in {S.db[u].pw, -1}, r \in BOOLEAN }
+  \cup { [E0 EXCEPT !.act = a, !.b = b] : a \in {"Probe", "OtpAdd", "OtpClear"} }
+  \cup { [E0 EXCEPT !.act = "Logout", !.b = b, !.method = c.logoutMethod] }
+  \cup { [E0 EXCEPT !.act = "RecoverStart", !.b = b, !.pid = u] }
+  \cup { [E0 EXCEPT !.act = "RecoverEnd", !.b = b, !.tok = S.db[u].rTok, !.pw = 3] }
+  \cup { [E0 EXCEPT !.act = "OtpLoginPost", !.b = b, !.pid = u, !.tok = t] : t \in S.db[u].otps \cup {-1} }
+  \cup { [E0 EXCEPT !.act = "ConfirmGet", !.b = b, !.tok = S.db[u].cTok] }
+
+IndependenceViolations(S, c) ==
+  V("C20.independentClients",
+    \A e1 \in ClientEvents(S, c, "b1", "u1") :
+       LET S1 == Apply(S, c, e1).st IN
+       \A e2 \in ClientEvents(S, c, "b2", "u2") :
+          LET alone == Apply(S, c, e2)
+              after == Apply(S1, c, e2)
+          IN  RespProj(alone.resp) = RespProj(after.resp)
+              /\ ClientProj(alone.st, "b2", "u2") = ClientProj(after.st, "b2", "u2")
+              /\ ClientProj(after.st, "b1", "u1") = ClientProj(S1, "b1", "u1"))
+
+-----------------------------------------------------------------------------
 (* C17 - secrets are never stored or logged in recoverable form; mailed tokens   *)
 (* leave only in the e-mail addressed to the account.  r.leaks is filled by the  *)
 (* harness scanner (every plaintext secret it typed or was shown, in several     *)
